@@ -56,6 +56,7 @@ func findCallTo(f *ssa.Function, pred func(*ssa.Function) bool) ssa.Instruction 
 
 func c20r1(c *core.Ctx) {
 	configLoadPolarity(c)
+	ownEntityProtected(c)
 	p := c.P
 	nt := p.Func("", "NewIPTransport")
 	if nt == nil {
@@ -358,16 +359,24 @@ func c20r4(c *core.Ctx) {
 	})
 	c.Check(reads && n > 0, "isPaired-reads-database", isPaired.Pos(), "isPaired derives its answer from Database.Entities() on every path",
 		"isPaired does not read the stored pairings (it answers from a counter or a cached flag): repeated or failed add/remove requests make the advertised flag drift from what is stored")
-	// true only when more than one entity (the accessory's own + at least one controller)
-	more := false
+	// paired means: a controller is stored. Controllers are stored with their public key only; an entity that holds a private key is
+	// a key pair of the accessory itself — the one in use, or one left behind by a start that failed after the device entity was
+	// written and before the id was saved (the next start draws a new id and a new key pair). Counting entities ("more than one")
+	// takes such a left-over for a controller: the accessory is "paired" with nobody, for ever.
+	perEntity := false
 	core.Instrs(isPaired, func(i ssa.Instruction) {
-		if b, ok := i.(*ssa.BinOp); ok && b.Op == token.GTR {
-			if k, ok := core.ConstInt(b.Y); ok && k == 1 {
-				more = true
+		if call, ok := i.(*ssa.Call); ok {
+			if bi, isB := call.Call.Value.(*ssa.Builtin); isB && bi.Name() == "len" {
+				if _, isPK := core.FieldLoad(call.Call.Args[0], mod+"/db.Entity", "PrivateKey"); isPK {
+					perEntity = true
+				}
+				if f, isF := call.Call.Args[0].(*ssa.Field); isF && core.FieldName(f) == mod+"/db.Entity.PrivateKey" {
+					perEntity = true
+				}
 			}
 		}
 	})
-	c.Check(more, "isPaired-threshold", isPaired.Pos(), "paired means more than one stored entity (the accessory's own key pair is one)", "isPaired does not compare the number of entities with 1")
+	c.Check(perEntity, "isPaired-counts-controllers", isPaired.Pos(), "an entity counts as a pairing when it holds no private key", "isPaired counts stored entities instead of stored controllers: a key-pair entity left behind by a start that did not complete (the device entity is written before the id is saved) makes the accessory 'paired' — not discoverable — although no controller is stored")
 	// writers of discoverable
 	n = 0
 	for _, st := range p.FieldStores(tConfig, "discoverable") {
